@@ -38,6 +38,14 @@ def known_open(findings, prop, signature):
 
 
 def run_one(mod, scenario, timeout_s):
+  # process-global RNGs are a nondeterminism source the code under test could (wrongly) read: seed them from the
+  # scenario so that even then a run is a pure function of its scenario
+  import hashlib
+  import random
+  import numpy as np
+  h = int.from_bytes(hashlib.sha256(json.dumps(scenario, sort_keys=True).encode()).digest()[:4], 'big')
+  random.seed(h)
+  np.random.seed(h)
   faulthandler.dump_traceback_later(timeout_s, exit=True)
   try:
     return mod.execute(scenario)
